@@ -16,7 +16,8 @@ Events are single public calls; the driver performs no reads of its own: which r
 when and in which order is part of every history (TLC's behaviours contain reads as steps, the harness appends
 read patterns in varying orders, some histories read everything after every step, others run 2..300 increments
 across a boundary before the first read), and every returned value is judged against the tracked value.
-Verdict: only values returned by Get/SQN/Overflow; the raw word is information."""
+Verdict: only values returned by Get/SQN/Overflow; the raw word is information.
+Model side also unbounded: Apalache shows the counter laws inductive for all argument values (spec/NasCountInd.tla) and refutes a wrong modulus."""
 import time, json, os, sys
 sys.path.insert(0, os.path.dirname(os.path.dirname(os.path.abspath(__file__))))
 from vlib import *
